@@ -8,6 +8,7 @@ import (
 	"go/token"
 	"math/rand"
 	"os"
+	"path/filepath"
 	"strings"
 	"sync"
 
@@ -222,10 +223,16 @@ func checkC08(c *Ctx) {
 		if !isCanonical(f.Src) || !bytes.Contains(f.Src, []byte("import")) {
 			return
 		}
-		mk := func(*token.FileSet, *ast.File) (resolver.DecoratorResolver, error) {
-			return goast.WithResolver(guess.New()), nil
+		// an accurate name resolver: the package clause of every imported package, read from GOROOT
+		names, ok := exactImportNames(f.Src)
+		if !ok {
+			c.Add("corpus_files_without_accurate_names", 1)
+			return
 		}
-		sig, what, _, _ := c08Judge(f.Src, mk, guess.New(), "example.com/local")
+		mk := func(*token.FileSet, *ast.File) (resolver.DecoratorResolver, error) {
+			return goast.WithResolver(simple.New(names)), nil
+		}
+		sig, what, _, _ := c08Judge(f.Src, mk, simple.New(names), "example.com/local")
 		c.Eval("corpus|"+f.Path, true)
 		if sig != "" {
 			in := "corpus|" + f.Path
@@ -377,4 +384,53 @@ func seenNode(frags []decorator.VerifFragment, node int) bool {
 		}
 	}
 	return false
+}
+
+// exactImportNames reads the package name of every import of src from the toolchain tree; ok is
+// false when a name cannot be established (the resolver would not be accurate).
+func exactImportNames(src []byte) (map[string]string, bool) {
+	f, err := parser.ParseFile(token.NewFileSet(), "", src, parser.ImportsOnly)
+	if err != nil {
+		return nil, false
+	}
+	names := map[string]string{}
+	for _, is := range f.Imports {
+		p := strings.Trim(is.Path.Value, "\"`")
+		if p == "C" || p == "unsafe" {
+			names[p] = p
+			continue
+		}
+		found := ""
+		for _, dir := range []string{filepath.Join(goroot(), p), filepath.Join(goroot(), "vendor", p), filepath.Join(goroot(), "cmd", "vendor", p)} {
+			ents, err := os.ReadDir(dir)
+			if err != nil {
+				continue
+			}
+			for _, e := range ents {
+				if !strings.HasSuffix(e.Name(), ".go") || strings.HasSuffix(e.Name(), "_test.go") {
+					continue
+				}
+				b, err := os.ReadFile(filepath.Join(dir, e.Name()))
+				if err != nil {
+					continue
+				}
+				pf, err := parser.ParseFile(token.NewFileSet(), "", b, parser.PackageClauseOnly)
+				if err != nil || bytes.Contains(b, []byte("//go:build ignore")) {
+					continue
+				}
+				found = pf.Name.Name
+				if found != "main" {
+					break // generator programs (package main, build-ignored) live next to library files
+				}
+			}
+			if found != "" {
+				break
+			}
+		}
+		if found == "" {
+			return nil, false
+		}
+		names[p] = found
+	}
+	return names, true
 }
